@@ -764,8 +764,9 @@ Section Guards.
     end.
 End Guards.
 
-(* no class of the fragment has an attribute map: the hypothesis of the theorems that speak about EVERY
-   attribute order (a map comes back in the order the attributes were reported) *)
+(* no class of the fragment has an attribute map or a wildcard field: the hypothesis of the theorems that
+   speak about EVERY attribute order (a map - and the attributes of a generic element - come back in the
+   order the attributes were reported) *)
 Definition nomaps_u (u : universe) : bool :=
   forallb (fun km => negb (wf_class (snd km))
                      || (match m_any_attributes (snd km) with [] => true | _ => false end
